@@ -88,7 +88,9 @@ def make_storage(spec, clock, count_get=False):
 
 
 def gen_storage_spec(rnd):
-    kind = rnd.choice(["uniform", "uniform", "geometric", "geometric", "interval", "sequence", "batch"])
+    kind = rnd.choice(["uniform", "uniform", "geometric", "geometric", "interval", "sequence", "batch", "library-default"])
+    if kind == "library-default":
+        return ("library-default",)
     size = rnd.choice([1, 2, 3, 5, 100])
     tg = rnd.random() < 0.5
     if kind == "uniform":
@@ -161,7 +163,13 @@ class Scenario:
 
             def loss_fn(y_true, y_pred):   # the documented positional signature, nothing more
                 return inner(y_true, y_pred)
-        self.storage = make_storage(cfg["storage"], self.clock, count_get)
+        if cfg["storage"][0] == "library-default":      # storage=None: the explainer builds its documented default reservoir
+            self.storage = None
+            if cfg["imputer"] not in ("default", "library-default"):
+                cfg["imputer"] = "library-default"
+            cfg["warm_start"] = 0
+        else:
+            self.storage = make_storage(cfg["storage"], self.clock, count_get)
         imp = cfg["imputer"]
         # odd-indexed features get falsy defaults now and then (0 / False are legal default values)
         self.defaults = {n: (-(j + 1) if j % 2 == 0 or seed % 3 else [0, False, 0.0][j % 3]) for j, n in enumerate(self.names)}
